@@ -1,15 +1,25 @@
 #!/bin/sh
 # Builds /verif/.venv: an overlay on the repository's own /venv (numpy, pandas, PuLP, ...) plus
-# z3-solver and crosshair-tool from the offline wheelhouse. Idempotent; offline.
+# z3-solver and crosshair-tool from the offline wheelhouse. Idempotent; offline; safe to call from several checks at once.
 set -e
 HERE="$(cd "$(dirname "$0")" && pwd)"
 V="$HERE/.venv"
-if [ -x "$V/bin/python" ] && "$V/bin/python" -c "import z3, crosshair, numpy, pulp" 2>/dev/null; then
+ok() { [ -x "$V/bin/python" ] && (cd / && "$V/bin/python" -c "import z3, crosshair, numpy, pulp" 2>/dev/null); }
+if ok; then
   exit 0
 fi
-rm -rf "$V"
-/venv/bin/python -m venv "$V"
+# one builder at a time; the others wait and then find the environment ready
+if command -v flock >/dev/null 2>&1; then
+  exec 9>"$HERE/.bootstrap.lock"
+  flock 9
+  if ok; then
+    exit 0
+  fi
+fi
+if [ ! -x "$V/bin/python" ]; then
+  /venv/bin/python -m venv "$V"
+fi
 SP="$V/lib/python3.12/site-packages"
 printf "import site; site.addsitedir('/venv/lib/python3.12/site-packages')\n" > "$SP/_overlay.pth"
 PIP_NO_INDEX=1 "$V/bin/pip" install -q --no-index --find-links /opt/veriftools/wheels z3-solver crosshair-tool >/dev/null
-"$V/bin/python" -c "import z3, crosshair, numpy, pulp; print('verif venv ok: z3', z3.get_version_string())"
+(cd / && "$V/bin/python" -c "import z3, crosshair, numpy, pulp; print('verif venv ok: z3', z3.get_version_string())")
